@@ -6,5 +6,6 @@ CONSTANTS
   MaxName = 255
 INVARIANT ExactOK
 INVARIANT EmptyOK
+INVARIANT FarOK
 INVARIANT Emit
 CHECK_DEADLOCK FALSE
